@@ -101,21 +101,24 @@ mod verif_kani_presolver {
     // kinds, and lists of length 3 whose first two cones are of a concrete kind other than nonnegative (each such kind once in
     // each position), the third cone of any kind.  All dimensions and all markers are symbolic throughout.
     #[kani::proof]
-    #[kani::unwind(11)]
+    #[kani::unwind(4)]
     fn reduce_cones_matches_spec_len1() { check_on([any_cone()]); }
     #[kani::proof]
-    #[kani::unwind(11)]
+    #[kani::unwind(4)]
     fn reduce_cones_matches_spec_len2() { check_on([any_cone(), any_cone()]); }
     #[kani::proof]
-    #[kani::unwind(11)]
+    #[kani::unwind(4)]
     fn reduce_cones_matches_spec_len3_soc_zero_any() { check_on([cone_of(2), cone_of(1), any_cone()]); }
     #[kani::proof]
-    #[kani::unwind(11)]
+    #[kani::unwind(4)]
     fn reduce_cones_matches_spec_len3_exp_soc_any() { check_on([cone_of(3), cone_of(2), any_cone()]); }
     #[kani::proof]
-    #[kani::unwind(11)]
+    #[kani::unwind(4)]
     fn reduce_cones_matches_spec_len3_zero_exp_any() { check_on([cone_of(1), cone_of(3), any_cone()]); }
     #[kani::proof]
     #[kani::unwind(4)]
-    fn reduce_cones_dev3() { check_on([any_cone(), any_cone(), any_cone()]); }
+    fn reduce_cones_dev3() { check_on([cone_of(0), cone_of(2), cone_of(0)]); }
+    #[kani::proof]
+    #[kani::unwind(4)]
+    fn reduce_cones_dev4() { check_on([cone_of(0), cone_of(0), cone_of(0)]); }
 }
